@@ -43,8 +43,9 @@ check("C03",
       "TLC exhausts UKVCrash (every crash offset of append sessions over records with lengths 0..3, recovery by r / a+put / "
       "second crash) for CommittedSurvive, ViewIsComplete, NoPartialKey, NoGapOnAppend; then real append sessions "
       "(key lengths 1..255, values 0..70 kB) are recorded by a stream wrapper, EVERY byte offset (small sessions) or "
-      "every offset within 6 bytes of a structural boundary (large ones) is materialised as a crash image, four real "
-      "recovery histories (UKVFile r, a+new key, a+torn key, Collection reading; plus a second crash at every byte of the "
+      "every offset within 6 bytes of a structural boundary (large ones) is materialised as a crash image, six real "
+      "recovery histories (UKVFile r, a+new key, a+torn key, the same handle through r-then-a and through a-r-a, Collection reading / "
+      "reading-then-writing; plus a second crash at every byte of the "
       "recovery put, the bytes written IN PLACE over whatever the first crash left) are executed on it and each event trace is "
       "validated by TLC against UKVCrash.",
       "assumes a crash leaves a prefix of the session's logical byte stream and an intact file header; trusted: TLC, "
@@ -79,7 +80,7 @@ check("C04",
 check("C18",
       "TLC exhausts JobMap.tla (histories of <=3 jobmap runs over 2-3 source keys with scripted per-item outcomes ok / fail / "
       "omit-return-file / killed-by-a-signal-after-writing-a-partial-return-file / succeed-on-2nd-attempt (every job has a second "
-      "command that always succeeds), two argument versions, pre-populated, foreign-key and fresh destinations; "
+      "command that always succeeds; the job argument reaches the program on the command line or only through an input file), two argument versions, pre-populated, foreign-key and fresh destinations; "
       "plain and vectorised jobs) for DestIsExactlySuccesses, ForeignKeysUntouched, NoReuseOfStaleOrFailed, "
       "AtMostOncePerValidInput, MustExecuteInvalid, RerunOnlyMissing.  Root paths of the TLC graph covering every abstract "
       "per-item situation class (+ seeded random paths) are replayed with the real jobmap() and real _molli_run "
@@ -94,7 +95,8 @@ check("C17",
       "processor count and environment, <=6-7 operations) for NoCrossTalk and every (state, operation) pair is replayed on "
       "a harness-defined driver and on the real XTBDriver.  Part 2: TLC enumerates every command list of length 1..3 (4 in "
       "the thorough tier) over 6 command kinds (named/unnamed, exit 0/non-zero/killed by a signal, writing none/one/both requested "
-      "files) x the forms of the optional JobInput fields (files / envars / return_files each given, explicitly empty or omitted) and "
+      "files) x the forms of the optional JobInput fields (files / envars / return_files each given, explicitly empty or omitted) x the "
+      "way the runner is started (absolute or relative output / scratch / job paths) and "
       "computes, step by step as run_local does, the required result (executed prefix, captured names, returned files, exit "
       "status, no residue); each job is executed by the real _molli_run and its execution log, JobOutput (stdout/stderr "
       "content, files byte for byte, input hash), exit status, materialised text/binary inputs, environment override and "
@@ -108,7 +110,7 @@ check("C05",
       "library-created hydrogens and attachment points, <=2-3 live atoms; actions add_atom with/without charge, append_atom, "
       "connect (also of a bonded pair: a second, parallel bond object), append_bond with 0/1/2 foreign atoms and of the reversed pair, "
       "the batch forms append_bonds / extend_bonds, del_bond (of either of two parallel bond objects), del_atom by object/index/label/element incl. failing calls, "
-      "remove_substituent, add_implicit_hydrogens, substructure translation, cloning) for Aligned, KeepsGiven, BondsInside, "
+      "new_atom, remove_substituent, add_implicit_hydrogens, substructure translation, cloning) for Aligned, KeepsGiven, BondsInside, "
       "DeleteRemovesExactlyIncident, MovesExactlySelected, FailedIsNoOp.  Every (state, action) pair reached within the time "
       "budget is replayed on a real Molecule and a real Structure; after each call the identity-keyed observation (atom "
       "order, per-atom coordinate and charge tokens, array shapes and dtype, bond endpoints, parent/idx/get_atom_index) "
@@ -124,7 +126,7 @@ check("C05",
 
 check("C06",
       "TLC exhausts MolHeap.tla (objects of the seven structure classes, copy routes construct / construct with the source's own "
-      "arrays as explicit arguments / pickle / deepcopy / upcast / concatenate / a | b (also with one operand without atoms) / join / "
+      "arrays as explicit arguments / pickle / deepcopy / upcast / concatenate / a | b (also with one operand without atoms) / join / extend or append into an empty ensemble / "
       "ensemble-from-molecule / "
       "conformer view, one or two mutations of any cell kind on either side, <=3 live "
       "objects) for NoSharedCell, Independent, CopyEqual, ViewWritesThrough.  Every (heap state, action) pair (quick: all 23 k, pairs partitioned among "
@@ -180,7 +182,7 @@ check("C01",
       "0-3 conformers, special floats).  The enumerated Put arguments are built as real objects and stored and re-read in real "
       ".mlib/.clib files (v2 and legacy magic, incl. records placed by an independent legacy encoder and genuine bundled legacy "
       "records).  Those sessions plus seeded generated objects are abstracted into traces that TLC validates against "
-      "LibCodecTrace - the verdict 'reads back as the same object' is MolModel!Same evaluated by TLC.  Sessions include re-reads after the caller edited a returned object, re-reads after the file was rewritten, and objects with parallel bonds (same pair twice, reversed, different type / order / attributes).",
+      "LibCodecTrace - the verdict 'reads back as the same object' is MolModel!Same evaluated by TLC.  Sessions include every constructor form over a pre-existing file (absent / current / legacy, overwrite on and off) followed by a read through a fresh handle and a fresh process, re-reads after the caller edited a returned object, re-reads after the file was rewritten, and objects with parallel bonds (same pair twice, reversed, different type / order / attributes).",
       "bounded pools plus seeded generation; value equality per DESIGN 3.3; float32 tolerance only for coordinates, charges and "
       "weights, f_order and attribute floats exact; trusted: TLC, the abstraction function, the independent v1 codec (verified "
       "byte-for-byte against bundled files), msgpack; record byte layout free",
